@@ -31,7 +31,7 @@ func runDrivers(r *core.Run, thriftrw, stream string, nProgs, batch uint64, buil
 		spec := genlab.NamedSpec(stream, off, from, to)
 		b := genlab.Generate(r, thriftrw, fmt.Sprintf("%s-%d", stream, from), spec)
 		out, _ := b.BuildAll()
-		if strings.Contains(out, "cannot find module") || strings.Contains(out, "missing go.sum") {
+		if strings.HasPrefix(out, genlab.Unattributed) || strings.Contains(out, "cannot find module") || strings.Contains(out, "missing go.sum") {
 			r.Inconclusive("scratch module cannot be built: %s", tailStr(out, 400))
 			b.Remove()
 			return
